@@ -71,6 +71,15 @@ class SmtpRelayWorld(object):
             kw['tls_immediately'] = cfg.get('tls') == 'immediate'
         if cfg.get('auth'):
             kw['credentials'] = ('user', 'pw')
+            form = cfg.get('cred_form')
+            if form == 'callable':
+                kw['credentials'] = lambda: ('user', 'pw')        # documented: a function returning the tuple
+            elif form == 'authzid':
+                kw['credentials'] = ('user', 'pw', 'zid')
+            elif form == 'mech-login':
+                kw['auth_mechanism'] = b'LOGIN'
+        if cfg.get('ehlo_callable'):
+            kw['ehlo_as'] = lambda address: 'relay.test'          # documented: a function of the destination address
         if cfg.get('binary_encoder') is not None:
             kw['binary_encoder'] = cfg['binary_encoder']
         ctx = VContext(fail=bool(cfg.get('client_tls_fail'))) if cfg.get('tls') else VContext()
